@@ -39,6 +39,13 @@ def SuffixFree (r : Reg V) : Prop :=
     (m.ty = .histogram → m'.name ≠ m.name ++ sfxSum ∧ m'.name ≠ m.name ++ sfxCount ∧ m'.name ≠ m.name ++ sfxBucket) ∧
     (m.ty = .summary → m'.name ≠ m.name ++ sfxSum ∧ m'.name ≠ m.name ++ sfxCount)
 
+/-- all vectors of one metric entry carry the same help string -/
+def HelpUniform (r : Reg V) : Prop := ∀ m ∈ r.metrics, ∀ v ∈ m.vecs, ∀ w ∈ m.vecs, v.help = w.help
+
+/-- the help string of the first vector ever created for the metric name, if there is one (`helpFor`: vectors are
+    never removed, and every later vector of the name is created with this help string) -/
+def Reg.firstHelp? (r : Reg V) (name : Bytes) : Option Bytes := ((r.find name).bind (·.vecs.head?)).map (·.help)
+
 /-- two series agree in everything but the registration clock (`last`) and the `ttl` -/
 def Series.sameValue (s t : Series V) : Prop :=
   s.labels = t.labels ∧ s.f = t.f ∧ s.n = t.n ∧ s.bk = t.bk
